@@ -9,6 +9,7 @@
 From RichModel Require Import Prelude Color Style SpecStyle.
 From RichGen Require Import StyleTables.
 From RichProofs Require Import StyleP StyleP2 StyleP3.
+From RichProofs.bridge Require BridgeStyle.   (* tie 1 (T2): Style.__add__ regenerated statement by statement from rich/style.py *)
 
 (* ------------------------------------------------------------------ algebra *)
 (* (1) associativity -- for ALL styles: attribute words are arbitrary integers, any flags, any
